@@ -56,14 +56,35 @@ def _run_abort(case):
       return
     test.abort_from_sig_int()
 
+  def aborter2(env):
+    # the operator's second Ctrl-C (forced stop): teardown PHASES may be cancelled, plug tearDown is not
+    s = env['sched']
+    test = env['test']
+    s.block(lambda: (s.step >= case['k2'] and getattr(test, '_executor', None) is not None) or
+            ('execute-returned',) in env['log'], None, 'abort-trigger-2')
+    if ('execute-returned',) in env['log']:
+      return
+    test.abort_from_sig_int()
+
   def prepare(env):
     env['ctx'].record_ends = True
-  out = sched_exec.run_case(prog, choose=c04._chooser(case), aux=[('ab1', aborter)], prepare=prepare, max_steps=40000)
+  if case.get('mode') == 'sigint':
+    # a real SIGINT on the main thread at step k (the first one raises KeyboardInterrupt out of execute())
+    aux = []
+    chooser = c04._chooser({'ks': [k], 'mode': 'sigint', 'prog': case['prog']})
+  else:
+    aux = [('ab1', aborter)] + ([('ab2', aborter2)] if case.get('k2') is not None else [])
+    chooser = c04._chooser(case)
+  out = sched_exec.run_case(prog, choose=chooser, aux=aux, prepare=prepare, max_steps=40000)
   test_descriptor.Test.TEST_INSTANCES.clear()
   if out['deadlock'] or out['stuck']:
     return {'tokens': ['O:DEADLOCK']}
   nclasses = len(prog['plugs'])
-  return {'tokens': out['tokens'] + ['X:ret:%d' % (1 if out['ret'] else 0)], 'nclasses': nclasses}
+  ret = 1 if out['ret'] else 0
+  if isinstance(out.get('exc'), KeyboardInterrupt):
+    # the first SIGINT is re-raised out of execute() (no return value: C09's business); the plug lifecycle is judged
+    ret = 1 if out['tokens'] and out['tokens'][0] == 'O:PASS' else 0
+  return {'tokens': out['tokens'] + ['X:ret:%d' % ret], 'nclasses': nclasses}
 
 
 def run_real(case):
@@ -220,6 +241,9 @@ def gen_cases(rng, tier):
     n = 400
     for k in range(0, n, 5 if tier == 'quick' else 1):
       cases.append({'kind': 'abort', 'prog': name, 'k': k})
+    for k in range(0, n, 9 if tier == 'quick' else 2):
+      cases.append({'kind': 'abort', 'prog': name, 'k': k, 'k2': k + [3, 11, 40, 90][k % 4]})
+      cases.append({'kind': 'abort', 'prog': name, 'k': k, 'mode': 'sigint'})
   return cases
 
 
